@@ -225,4 +225,117 @@ PROPS["C18"] = {
     "assumptions": ["a byte 0xFF ends the input for the lexer (it is its end-of-input sentinel); this is treated as clean termination"],
 }
 
+# exclusion predicates of the typed problem generator (one per known finding, see known_findings.jsonl and DESIGN.md section 5);
+# they are switched on for every solver-level run so that the search continues behind the confirmed findings
+GEN_EXCL = ["relations_only_positive", "disjunction_only_asserted", "object_constraints_consistent", "rr_single_atom_fits_every_candidate", "one_atom_per_tau_variable"]
+QUICK_CFGS = ["dbg", "dbg-hadd-ci"]
+ALL_CFGS = ["dbg", "dbg-hadd", "dbg-ci", "dbg-hadd-ci", "rel", "rel-hadd", "rel-ci", "rel-hadd-ci"]
+
+
+def _prob(prop, q_cases, t_cases, max_size=300, layers=(None,), budget_ms=20000, extra_opts=None):
+    def runs(tier):
+        cfgs = QUICK_CFGS if tier == "quick" else ALL_CFGS
+        n = q_cases if tier == "quick" else t_cases
+        combos = [(c, l) for c in cfgs for l in layers]
+        per = max(1, 16 // len(combos))
+        out = []
+        for c, l in combos:
+            r = {"cfg": c, "harness": "h_prob", "cases": n, "max_size": max_size, "shards": per, "budget_ms": budget_ms, "excl": list(GEN_EXCL), "opts": dict(extra_opts or {})}
+            if l:
+                r["opts"]["layer"] = l
+            out.append(r)
+        return out
+    return runs
+
+
+_PROB_TRUST = ("Trusted: the harness's typed generator / printer / exact evaluator (GMP), Z3 for the constraint-only fragment, the solver's public API for reading the solution "
+               "(get, arith_value, sat value of sigma, ov value). Shapes covered by the known findings KF1-KF4 are excluded by named generator predicates and represented by their replay files.")
+
+PROPS["C01"] = {
+    "runs": _prob("C01", 1200, 20000, layers=("L0", "L1", "L3")),
+    "rule": "Typed RIDDLE problems generated with a printer and an exact evaluator, read and solved in-process (solver::read + solve) in each configuration of the run "
+            "(quick: Debug h_max and Debug h_add + CHECK_INCONSISTENCIES; thorough: all 8 of h_max/h_add x CI off/on x Debug/Release). Layers: L0 real/int/bool variables, linear "
+            "relations with rational coefficients (products with constants on either side, division, unary +/-), & | -> ^ ! == != between booleans, disjunction statements; "
+            "L1 adds class hierarchies, instances, object variables, field accesses through variables, object (dis)equalities; L3 adds state-variable and reusable-resource timelines. "
+            "About 2/3 of the problems are planted around a witness. Oracle when solve() returns true: every asserted constraint evaluates to true (three-valued, exact arithmetic "
+            "with infinitesimals) on the reported values, for EVERY remaining value of the object variables it mentions; at least one disjunct of every disjunction statement holds. "
+            "Non-trivial: solved and a relation over >= 2 variable occurrences, a disjunction statement or an object variable was evaluated. Distinct by program text.",
+    "technique": "property-based testing with a typed program generator and an exact re-evaluation of the reported solution; configuration matrix",
+    "level_text": "Random well-typed programs; the reported solution is re-evaluated against the program by an independent evaluator. Rule bodies are covered for smart-type predicates through "
+                  "the plan validators (C04-C06); constraints inside user rule bodies are not re-evaluated (no hook H3 was built).",
+    "level_note": _PROB_TRUST,
+    "assumptions": ["int variables are LRA reals without integrality", "constraints in user-defined rule bodies are outside this check"],
+}
+PROPS["C02"] = {
+    "runs": _prob("C02", 1200, 20000, layers=("L0", "L1", "L3")),
+    "rule": "Same generator as C01. (a) Free problems of layers L0/L1 are translated to Z3 (reals, booleans, finite-domain integers for object variables, field accesses as ite chains): "
+            "'unsolvable' (false from solve(), unsolvable / inconsistency exception from read() or solve()) while Z3 finds a model is a violation. (b) Planted problems of all layers "
+            "(a witness assignment / schedule is drawn first and every emitted constraint is true under it) must never be declared unsolvable. Non-trivial: the verdict was unsolvable, or the "
+            "problem was planted. Distinct by program text. Metamorphic variants and the learnt-clause entailment oracle at solver level were not built; learnt clauses are checked at "
+            "network level (C07, C09, C10).",
+    "technique": "property-based testing: differential against Z3 on the decidable fragment, planted solutions elsewhere",
+    "level_text": "Ground truth is complete only for the constraint fragment; for timelines only planted problems are judged. A wrong 'unsolvable' on an unplanted planning problem is invisible.",
+    "level_note": _PROB_TRUST,
+    "assumptions": ["search is bounded by a 20 s CPU budget per case; budget hits are inconclusive"],
+}
+PROPS["C04"] = {
+    "runs": _prob("C04", 2000, 40000, layers=("L3",)),
+    "rule": "Planted timeline problems: 1-2 StateVariable subclasses with 1-2 predicates (optional minimal duration), 1-3 instances each, optional object variables over the instances, "
+            "optional reusable resources; 2-7 facts / goals addressed to an instance or through a variable (tau still a variable), times given as arguments, as windows "
+            "(start >= a, end <= b, duration >= d) or left free, zero-length atoms, atoms touching at an endpoint, explicit precedences, bounded horizon. Oracle on every reported solution: "
+            "for each state-variable instance no two Active atoms whose tau allows that instance have max(start) < min(end) (exact, infinitesimal-aware). Non-trivial: >= 2 active atoms on "
+            "one instance. Distinct by program text. All configurations of the run's matrix.",
+    "technique": "property-based testing with planted schedules; validity predicate over the reported plan",
+    "level_text": "Random timeline problems; every reported plan is validated independently. Only reported solutions are judged. The timeline JSON of extract_timelines() is not compared.",
+    "level_note": _PROB_TRUST,
+    "assumptions": [],
+}
+PROPS["C05"] = {
+    "runs": _prob("C05", 2000, 40000, layers=("L3",)),
+    "rule": "Generator of C04 biased to 1-3 ReusableResource instances with capacities in {0, 1, 3/2, 2, 4, 10} and Use atoms with amounts in {0, 1/2, 1, 2, 4, 5, exactly the remaining "
+            "capacity}, resource fixed or a variable. Oracle on every reported solution: at every start pulse of an active Use atom the exact sum of the amounts of the active atoms with "
+            "start <= p < end whose tau allows the resource is <= the resource's capacity, and the reported capacity equals the declared one. Non-trivial: >= 2 atoms overlap on one resource "
+            "or >= 2 active atoms. Distinct by program text.",
+    "technique": "property-based testing with planted schedules; exact sweep over the reported plan",
+    "level_text": "As C04. The per-segment usage of extract_timelines() is not compared.",
+    "level_note": _PROB_TRUST,
+    "assumptions": [],
+}
+PROPS["C06"] = {
+    "runs": _prob("C06", 2000, 40000, layers=("L3",)),
+    "rule": "Generator of C04/C05 (facts and goals on state variables and reusable resources, whose Interval rule is applied implicitly to facts). Oracle on every reported solution, for every "
+            "Active atom read back through the predicates' instance lists: origin <= start <= end <= horizon, duration == end - start, duration >= 0 (exact). Non-trivial: >= 2 active atoms. "
+            "Distinct by program text. Plain (non smart-type) Interval / Impulse predicates, agents and consumable resources are not generated.",
+    "technique": "property-based testing; validity predicate over the reported plan",
+    "level_text": "As C04.",
+    "level_note": _PROB_TRUST,
+    "assumptions": [],
+}
+PROPS["C17"] = {
+    "runs": _prob("C17", 2000, 40000, layers=("L1",)),
+    "rule": "Programs with 1-5 classes (0-2 supertypes each, diamonds included), 0-2 real fields per class set by field initialisers or by constructor parameters through initialiser "
+            "lists that call the supertype constructors, 0-2 enums with unions, instances and object / enum variables interleaved so that domains depend on the point of declaration, "
+            "then constraints through field accesses on single- and multi-valued variables and object (dis)equalities. The declarations are read first; oracle right after that read(): "
+            "the domain of every declared variable (ov value) is exactly the set of instances of its type and subtypes created before the declaration (enum: own + included values). "
+            "The constraints are read by a second read(); after solve(): every variable's value is in that set, every instance field equals the constructor / initialiser value, every "
+            "constraint over objects holds for every remaining choice. Non-trivial: field access on a multi-valued variable, a diamond, an enum union, or a variable declared between "
+            "instantiations. Distinct by program text.",
+    "technique": "property-based testing with a class-hierarchy generator and a reference object model",
+    "level_text": "Random hierarchies and instance sets compared with a reference model of domains and constructor semantics. Methods and nested types are not generated.",
+    "level_note": _PROB_TRUST,
+    "assumptions": [],
+}
+PROPS["C16"]["runs"] = (lambda base: (lambda tier: base(tier) + [
+    {"cfg": "dbg", "harness": "h_prob", "sub": "eval", "cases": 2000 if tier == "quick" else 40000, "max_size": 300, "shards": 4, "budget_ms": 20000, "excl": list(GEN_EXCL)}]))(PROPS["C16"]["runs"])
+PROPS["C16"]["rule"] = PROPS["C16"]["rule"].replace("Three parser-level sub-checks (evaluation of constant expressions is checked on solved programs, see the eval sub-run when present).",
+    "Three parser-level sub-checks and an evaluation sub-check. eval: programs 'real v = <constant expression>;' / 'v == <constant expression>;' / 'bool c = <boolean expression over "
+    "constants>;' (products and quotients of constants, constant * expression, unary minus, all relations, & ^ ! == != and, outside the known finding KF2, | and ->), solved in-process; "
+    "the reported value of every such variable must equal the harness's exact evaluation (non-trivial: a product, division, unary minus or boolean constant expression).")
+PROPS["C16"]["assumptions"] = ["literals stay within 18 digits", "eval sub-run: '|' and '->' are generated only where a disjunction is asserted (known finding KF2)"]
+PROPS["C18"]["runs"] = (lambda base: (lambda tier: base(tier) + [
+    {"cfg": "dbg", "harness": "h_prob", "cases": 600 if tier == "quick" else 20000, "max_size": 300, "shards": 2, "budget_ms": 20000, "excl": list(GEN_EXCL), "opts": {"layer": l},
+     "replay_args": ["--crash-violation"]} for l in ("L0", "L1", "L3")]))(PROPS["C18"]["runs"])
+PROPS["C18"]["rule"] += (" programs (valid typed programs of the C01 generator, layers L0/L1/L3, through read()+solve() in the Debug+ASan+UBSan build): any signal, assertion failure, std::terminate or "
+                         "sanitizer report is a violation; a std::exception is not.")
+
 NOT_CLAIMED = {}
